@@ -7,13 +7,15 @@ ENTRY = {
             "MemoryTableExec partitions), integer components in [-4,4] (every f32/f64 operation of the kernels is exact, distinct exact distances stay distinct as floats), "
             "rows drawn from a small pool (duplicates: ties under every metric), scaled copies (parallel vectors: cosine ties), zero vectors, NULL vectors 0/10/50 %; random batch cuts; "
             "statement from an AST owned by the generator, shape classes in rotation: canonical (x4), canonical+WHERE, canonical with renamed/swapped output names, wrong direction for the "
-            "metric (x2), extra sort key before/after the distance, NULLS FIRST, no LIMIT / OFFSET only, LIMIT 0, distance in the SELECT list (computed projection), expression around the "
+            "metric (x2), extra sort key before/after the distance (a key AFTER the distance only with l2 / dot, whose float values are exact; the cosine functions round, so mathematically tied parallel vectors may differ in the last bit), NULLS FIRST, no LIMIT / OFFSET only, LIMIT 0, distance in the SELECT list (computed projection), expression around the "
             "distance (-d, d+1, d*2), query vector of the wrong length, filter ABOVE the limit (outer query), filter in a derived table below the ORDER BY, ordinary top-n on a scalar column; "
             "all four functions (l2_distance, cosine_distance, cosine_similarity, dot_product), literal first or second, ARRAY[..] or [..], integer or decimal literals; "
             "k and OFFSET from {1,2,n-1,n,n+1,2n+3,n/2,random} x {absent,0,1,n-1,n,n+1,random}; session mode x provider in {Exact x MemoryTable (60 %), Exact x mock provider whose "
             "index returns a WRONG neighbour set, Exact x mock without index, Indexed x mock without index, Indexed x mock with the wrong index}. Each statement is answered by "
             "ExecutionContext::with_config(mode).sql and by the same public pipeline with VectorSearchPushdown removed from the rule list; the production fixpoint is replayed rule by rule "
-            "and every application of VectorSearchPushdown is exported (plan before / after). 1 of 5 cases kind exec: VectorSearchExec::new over a fallback operator with 1..4 declared partitions x 0..3 "
+            "and every application of VectorSearchPushdown is exported (plan before / after); on the plan the rule saw the driver also evaluates IQE.Engine.VectorSearch.meaning (the object of "
+            "C43_canonical_shape) over the case's table and compares it with the statement's meaning computed from the AST, evaluates knnAnswer of every accepted spec against the meaning of the accepted node, "
+            "and evaluates the theorem's hypotheses chainOk / noCiDup (tags meaning:agrees, knn_answer=meaning, hyp:chain_ok). 1 of 5 cases kind exec: VectorSearchExec::new over a fallback operator with 1..4 declared partitions x 0..3 "
             "batches x 0..4 rows, provider none / declining / index answer of 0..3 batches in four column layouts incl. a missing column and a drifted type, mode Exact / Indexed, "
             "k and skip from {0,1,m,m+1,usize::MAX,random}. Non-trivial: sql with >= 2 rows after WHERE and >= 1 row returned (or a dimension mismatch, or an index answer judged); "
             "exec with >= 2 fallback rows or the index path taken; distinct by sha256 of the canonical case",
@@ -32,13 +34,16 @@ ENTRY = {
         "skip and the row count fit in usize (explicit hypotheses of C43_topk, inherited from C25)",
         "sort keys are f64-typed (NULL or a float): explicit hypothesis KeysTyped [.f64] of C43_topk",
         "a dimension mismatch must be an error naming the column; an empty result is tolerated when no row reaches the sort",
-        "mode Indexed with an index answers by permission approximately: only the OFFSET/LIMIT mechanics (C43_index_window) and the correspondence with the model are judged there",
+        "mode Indexed with an index answers by permission approximately: only row integrity (every returned row is a table row projected as the SELECT list says), the OFFSET/LIMIT "
+        "mechanics (C43_index_window) and the correspondence with the model are judged there",
+        "C43_canonical_shape is stated for `meaning`, which resolves a column reference by its bare name (first exact match) and evaluates pushed scan filters through a parameter `pred` "
+        "(their semantics is C02's subject); the driver instantiates pred for the generated filter forms and checks meaning = statement meaning on every case inside the fragment",
     ],
     "min_tags": {"sql": 1, "exec": 1, "vs:fired": 1, "vs:absent": 1, "gate:accepted": 1, "gate:wrong_direction": 1, "gate:multi_key": 1, "gate:nulls_first": 1, "gate:no_fetch": 1,
                  "gate:fetch0": 1, "gate:not_distance": 1, "gate:chain": 1, "gate:dim_mismatch": 1, "err:dimension": 1, "fn:l2": 1, "fn:cos": 1, "fn:sim": 1, "fn:dot": 1,
                  "ties": 1, "tie_at_boundary": 1, "null_vectors": 1, "window_past_end": 1, "offset_past_end": 1, "multi_partition_scan": 1, "where": 1,
                  "path:exact": 1, "path:index": 1, "path:declined": 1, "path:fallback": 1, "fallback_parts>1": 1, "mode:exact": 1, "mode:indexed": 1,
-                 "provider:wrongindex": 1, "shape:outer_filter": 1, "shape:derived_filter": 1, "shape:computed_proj": 1, "shape:wrapped": 1, "shape:canonical_alias": 1},
+                 "provider:wrongindex": 1, "meaning:agrees": 1, "knn_answer=meaning": 1, "hyp:chain_ok": 1, "shape:outer_filter": 1, "shape:derived_filter": 1, "shape:computed_proj": 1, "shape:wrapped": 1, "shape:canonical_alias": 1},
     "manifest": {
         "category": "proof",
         "text": "Lean theorems: (C43_topk) whenever the index is not used, the operator's output is C25's Limit(skip,k) over Sort instantiated with the distance key — ((sort rows).drop skip).take k "
@@ -55,7 +60,9 @@ ENTRY = {
         "design_ref": "DESIGN.md §6 C43",
         "level_note": "Trusted: Lean kernel; axioms propext/Classical.choice/Quot.sound; the hand-written models of the matcher and the operator and the plan exporter/decoder (validated by the "
                       "correspondence runs only); exact-vs-float order of the distance kernels (sampled on integer-valued vectors, not proved); the reference semantics; harness generators and mocks. "
-                      "Known finding C43-F1 (a C03 defect: PredicatePushdown pushes a filter through LIMIT) is attributed only when the answer is acceptable for the statement with the outer filter moved below the limit.",
+                      "Finding C43-F1 (a C03 defect found by this family: PredicatePushdown pushed a filter through LIMIT) is fixed in /repo by 858a9cb, its witness is replayed from the corpus. "
+                      "Known finding C43-F2 (mode Indexed only: shape_output looks provider columns up by the query's output names — aliases fail or swap columns) is attributed only when the "
+                      "production answer equals the model with exactly that lookup; mode Indexed with an index is otherwise judged for row integrity and OFFSET/LIMIT mechanics, not for nearness.",
         "technique": "Lean 4 proof over executable models + plan-export correspondence + differential execution with the rule removed + exact-arithmetic SQL oracle",
     },
 }
